@@ -1,7 +1,7 @@
 (* Props/C12.v — Transport EOF or error at any point ends the connection cleanly.
-   Only statements.  Model: Async/Conn.v.  (Termination/no-panic of the whole task for every fault
-   position is added as its proof completes; until then it is decided by the correspondence check
-   with EOF at every byte offset and a fault at every read / write call index.) *)
+   Only statements.  Model: Async/Conn.v.  No panic / no spin of the whole task is proved for every fault position
+   and every handler; TERMINATION is proved under either of two conditions on handlers / transport and REFUTED
+   without them (known findings F5/F6: a StreamWriter op waiting for Request.lock); proofs in Async/ConnTotal.v. *)
 From FV Require Import Base.Bytes Gen.Generated Parser.ReqModel Parser.ReqTargets Parser.StreamModel Async.Conn Async.ConnWrites Async.ConnTotal Codec.Varint Codec.NV Codec.Vars Parser.ReqWire Parser.AbsStream Parser.StreamSpec Parser.StreamRefine Parser.StreamInv Async.ConnReads Async.LoopTargets Async.LoopProofs Async.LoopTargets2 Async.LoopProofs2.
 
 (* write_all on the transport, for EVERY write script (faults included): either everything was
@@ -25,32 +25,81 @@ Theorem C12_writer_prefix : forall fuel stype id data w,
         (writer_write_all fuel stype id data w).
 Proof. exact writer_write_all_spec. Qed.
 
-(* the connection task terminates without panicking or spinning: for EVERY read script and write script
-   (read errors, write errors, zero-length writes, spurious not-ready results at any call index), every
-   client byte string cut off at any offset (an ungated client: all bytes, then EOF), every buffer size
-   and every list of well-formed handler scripts, the model returns — neither a Rust panic site nor a
-   loop bound of the model is ever reached *)
-Theorem C12_terminates : forall (norm : bytes -> bytes) (maxc : N) scripts B w0,
-  world_ok w0 -> scripts_ok true scripts -> B < SIZE_LIMIT - 8 -> ungated w0 ->
-  exists w, run_loop norm maxc (nb w0 + 4) (new_parser B) scripts 0 w0 = (ORet, w).
-Proof. exact run_loop_terminates. Qed.
+(* ---- the whole connection task, in three layers (the request's output lock, Request.lock, is what separates them) ----
 
-(* with a gated (closed-loop) client the only other outcome is the task suspended on a read that the
-   client does not satisfy; still no panic, no spin *)
-Theorem C12_total : forall (norm : bytes -> bytes) (maxc : N) scripts B w0,
+   (i) For EVERY read script and write script (read errors, write errors, zero-length writes, spurious not-ready
+   results at any call index), every client byte string and gating, every buffer size and every list of well-formed
+   handler scripts, the task ends by RETURNING or by WAITING (suspended without a pending wake-up): neither a Rust
+   panic site nor a loop bound of the model is ever reached — it never panics and never spins.  What it may wait for
+   is a gated client, or (known findings F5/F6, see (iii)) the request's own output lock. *)
+Theorem C12_never_panics_or_spins : forall (norm : bytes -> bytes) (maxc : N) scripts B w0,
   world_ok w0 -> scripts_ok true scripts -> B < SIZE_LIMIT - 8 ->
   exists w, run_loop norm maxc (nb w0 + 4) (new_parser B) scripts 0 w0 = (ORet, w) \/
-            (run_loop norm maxc (nb w0 + 4) (new_parser B) scripts 0 w0 = (ODeadlock, w) /\ ~ ungated w0).
+            run_loop norm maxc (nb w0 + 4) (new_parser B) scripts 0 w0 = (ODeadlock, w).
 Proof. exact run_loop_total. Qed.
 
 (* handler scripts that select streams (set_stream) the role may reject: the only additional outcome
    is the handler's own panic on the rejected selection (documented: Request::set_stream panics) *)
-Theorem C12_total_lax : forall (norm : bytes -> bytes) (maxc : N) scripts B w0,
+Theorem C12_never_panics_or_spins_lax : forall (norm : bytes -> bytes) (maxc : N) scripts B w0,
   world_ok w0 -> scripts_ok false scripts -> B < SIZE_LIMIT - 8 ->
   exists w, run_loop norm maxc (nb w0 + 4) (new_parser B) scripts 0 w0 = (ORet, w) \/
-            (run_loop norm maxc (nb w0 + 4) (new_parser B) scripts 0 w0 = (ODeadlock, w) /\ ~ ungated w0) \/
+            run_loop norm maxc (nb w0 + 4) (new_parser B) scripts 0 w0 = (ODeadlock, w) \/
             run_loop norm maxc (nb w0 + 4) (new_parser B) scripts 0 w0 = (OPanic 70, w).
 Proof. exact run_loop_total_lax. Qed.
+
+(* (ii-a) TERMINATION, first sufficient condition: the transport has no write fault (no zero-length write, no write
+   error; read errors, EOF at any offset, not-ready results and partial writes anywhere are all allowed) and the
+   handlers await the reads they start (every opcode but the abandoned poll, op 11).  Then every awaited operation
+   returns with Request.lock released, no StreamWriter op ever finds it held, and: with an ungated client (all bytes
+   available, then EOF) the task RETURNS; in general the only other outcome is waiting for a gated client. *)
+Theorem C12_terminates_fault_free_awaiting_handlers : forall (norm : bytes -> bytes) (maxc : N) scripts B w0,
+  world_ok w0 -> scripts_ok true scripts -> Forall no_abandoned_read scripts -> no_fault (wscript w0) ->
+  B < SIZE_LIMIT - 8 -> ungated w0 ->
+  exists w, run_loop norm maxc (nb w0 + 4) (new_parser B) scripts 0 w0 = (ORet, w).
+Proof. exact run_loop_terminates_fault_free. Qed.
+
+Theorem C12_total_fault_free_awaiting_handlers : forall (norm : bytes -> bytes) (maxc : N) scripts B w0,
+  world_ok w0 -> scripts_ok true scripts -> Forall no_abandoned_read scripts -> no_fault (wscript w0) ->
+  B < SIZE_LIMIT - 8 ->
+  exists w, run_loop norm maxc (nb w0 + 4) (new_parser B) scripts 0 w0 = (ORet, w) \/
+            (run_loop norm maxc (nb w0 + 4) (new_parser B) scripts 0 w0 = (ODeadlock, w) /\ ~ ungated w0).
+Proof. exact run_loop_waits_fault_free. Qed.
+
+(* (ii-b) TERMINATION, second sufficient condition: the handlers PROPAGATE I/O errors (prop_script: every read is
+   `read(..).await?`, writes return their error; no op that observes an error and goes on) — for EVERY write script,
+   faults at any call index included: a failed reply flush ends the handler, so no StreamWriter op runs with the
+   lock held.  This is the handler class of the property's last clause. *)
+Theorem C12_terminates_propagating_handlers : forall (norm : bytes -> bytes) (maxc : N) scripts B w0,
+  world_ok w0 -> scripts_ok true scripts -> Forall prop_script scripts -> B < SIZE_LIMIT - 8 -> ungated w0 ->
+  exists w, run_loop norm maxc (nb w0 + 4) (new_parser B) scripts 0 w0 = (ORet, w).
+Proof. exact run_loop_terminates_propagating. Qed.
+
+Theorem C12_total_propagating_handlers : forall (norm : bytes -> bytes) (maxc : N) scripts B w0,
+  world_ok w0 -> scripts_ok true scripts -> Forall prop_script scripts -> B < SIZE_LIMIT - 8 ->
+  exists w, run_loop norm maxc (nb w0 + 4) (new_parser B) scripts 0 w0 = (ORet, w) \/
+            (run_loop norm maxc (nb w0 + 4) (new_parser B) scripts 0 w0 = (ODeadlock, w) /\ ~ ungated w0).
+Proof. exact run_loop_waits_propagating. Qed.
+
+(* (iii) WITHOUT such a condition termination is FALSE — of the model and of the crate (known finding F5; the harness
+   hangs at the same place): a Responder request with a GetValues record before its Stdin, the transport fails the
+   write of the GetValues reply inside the handler's first read ("keep lock even in the Err case": Request.lock stays
+   held), the handler ignores that error, reads again and writes to stdout: the StreamWriter waits for the lock for
+   ever although the client waits for nothing.  (F6 is the fault-free variant with an abandoned read, op 11:
+   ex_f6_abandoned_read in Async/ConnTotal.v.) *)
+Theorem C12_terminates_unrestricted_refuted :
+  exists (w0 : world) (scripts : list (list N)) (B : N),
+    world_ok w0 /\ scripts_ok true scripts /\ B < SIZE_LIMIT - 8 /\ ungated w0 /\
+    fst (run_loop (fun b => b) 10 (nb w0 + 4) (new_parser B) scripts 0 w0) = ODeadlock.
+Proof. exact run_loop_terminates_unrestricted_refuted. Qed.
+
+(* non-vacuity of (ii-a) and (ii-b): concrete connections (two KeepConn requests, short reads, spurious wake-ups, a
+   read error; a partial write / a zero-length write) satisfy the hypotheses *)
+Example C12_terminates_examples :
+  (exists w, run_loop (fun b => b) 10 (nb (ex_world 1 0 [3; 0; 5; R_ERR] [0; 1; 7]) + 4) (new_parser 0) [ex_script] 0
+                      (ex_world 1 0 [3; 0; 5; R_ERR] [0; 1; 7]) = (ORet, w)) /\
+  (exists w, run_loop (fun b => b) 10 (nb (ex_world 1 0 [3; 0; 5; R_ERR] [0; 1; W_ZERO]) + 4) (new_parser 0) [ex_prop_script] 0
+                      (ex_world 1 0 [3; 0; 5; R_ERR] [0; 1; W_ZERO]) = (ORet, w)).
+Proof. split; [exact ex_terminates|exact ex_terminates_propagating]. Qed.
 
 Example C12_example :
   exists w', await_write_all 10 false [1; 2; 3; 4] (mkW [] [2; W_ERR] [] [] 0 1 0 false true []) = Ok (Some EK_Transport) w'
